@@ -310,6 +310,14 @@ pub fn c08_alphabet_v(full: bool, channel: u8, abstract_values: &[u8]) -> Vec<Ev
     for n in 64u8..=127 {
         a.push(Ev::cc(channel, n, 5));
     }
+    // non-CC channel messages whose data bytes look like a contributing (controller, value) pair
+    for &v in abstract_values.iter().take(3) {
+        for cn in [1u8, 33] {
+            for hi in [0x90u8, 0xA0, 0xE0] {
+                a.push(Ev::Msg(hi | channel, cn, v));
+            }
+        }
+    }
     a.push(Ev::Msg(0x90 | channel, 60, 100));
     a.push(Ev::Msg(0x80 | channel, 60, 0));
     a.push(Ev::Msg(0xE0 | channel, 1, 2));
